@@ -238,6 +238,39 @@ EXTRA['eth2/beacon/altair:ComputeInactivityPenaltyDeltas'] = [
     '//@     invariant forall k :: {out.Rewards[k]} 0 <= k && k < len(out.Rewards) ==> out.Rewards[k] == 0',
     '//@     invariant ' + _IQ0 + ' ==> (forall j :: {%s} 0 <= j && j <= rangeindex ==> out.Penalties[%s] == %s)' % (_EJ, _EJ, _ipen(_EJ)),
     '//@     invariant ' + _IQ0 + ' ==> (forall k :: {out.Penalties[k]} 0 <= k && k < len(out.Penalties) && (forall j :: {%s} 0 <= j && j <= rangeindex ==> %s != k) ==> out.Penalties[k] == 0)' % (_EJ, _EJ)]
+# process_slashings (C02): the correlation penalty of every slashed validator halfway to its withdrawable epoch
+PROPS['eth2/beacon/phase0:ProcessEpochSlashings'] = ' C02'
+_ST = 'max(eb_sum(flats, epc.CurrentEpoch.ActiveIndices, len(epc.CurrentEpoch.ActiveIndices)), spec.EFFECTIVE_BALANCE_INCREMENT)'
+_SADJ = 'min(%s, mul64(slash_total(st_slashings(state)), st_fs(state).ProportionalSlashingMultiplier))' % _ST
+_SPEN = '(((flats[k].EffectiveBalance / spec.EFFECTIVE_BALANCE_INCREMENT) * 1) * 1)'
+def _spen(k):
+    return 'mul64(mul64(flats[%s].EffectiveBalance / spec.EFFECTIVE_BALANCE_INCREMENT, %s) / %s, spec.EFFECTIVE_BALANCE_INCREMENT)' % (k, _SADJ, _ST)
+def _sbal(k, ver):
+    b = 'bal_at(%s, st_bals(state), %s)' % (ver, k)
+    return ('ite(flats[%s].Slashed && (epc.CurrentEpoch.Epoch + spec.EPOCHS_PER_SLASHINGS_VECTOR / 2) %% 18446744073709551616 == flats[%s].WithdrawableEpoch, ite(%s >= %s, %s - %s, 0), %s)'
+            % (k, k, b, _spen(k), b, _spen(k), b))
+_SP0 = 'old(spec != nil && epc != nil && state != nil && epc.CurrentEpoch != nil && len(flats) < 4611686018427387904)'
+EXTRA['eth2/beacon/phase0:ProcessEpochSlashings'] = [
+    '//@   opt rangeindex=on',
+    '//@   opt mul=opaque',
+    '//@   use mul64_range',
+    '//@   assigns ghost(n_set_bal)',
+    '//@   ensures c02_penalties: err == nil && ' + _SP0 + ' ==> !st_bals_err(state) && !st_slashings_err(state) && (forall k :: {bal_at(n_set_bal, st_bals(state), k)} 0 <= k && k < len(flats) ==> bal_at(n_set_bal, st_bals(state), k) == old(%s))' % _sbal('k', 'n_set_bal'),
+    '//@   ensures c02_others: err == nil && ' + _SP0 + ' ==> (forall k :: {bal_at(n_set_bal, st_bals(state), k)} k < 0 || k >= len(flats) ==> bal_at(n_set_bal, st_bals(state), k) == old(bal_at(n_set_bal, st_bals(state), k)))',
+    '//@   loop 1',
+    '//@     invariant totalActiveStake == eb_sum(flats, epc.CurrentEpoch.ActiveIndices, rangeindex + 1) && n_set_bal == old(n_set_bal)',
+    '//@   loop 2',
+    '//@     invariant 0 <= i && i <= len(flats) && n_set_bal >= old(n_set_bal) && bals == st_bals(state) && slashings == st_slashings(state) && settings == st_fs(state)',
+    '//@     invariant totalActiveStake == %s && adjustedTotalSlashingBalance == %s && slashingsEpoch == (epc.CurrentEpoch.Epoch + spec.EPOCHS_PER_SLASHINGS_VECTOR / 2) %% 18446744073709551616' % (_ST, _SADJ),
+    '//@     invariant ' + _SP0 + ' ==> (forall k :: {bal_at(n_set_bal, st_bals(state), k)} 0 <= k && k < i ==> bal_at(n_set_bal, st_bals(state), k) == %s)' % _sbal('k', 'old(n_set_bal)'),
+    '//@     invariant forall k :: {bal_at(n_set_bal, st_bals(state), k)} k < 0 || k >= i ==> bal_at(n_set_bal, st_bals(state), k) == bal_at(old(n_set_bal), st_bals(state), k)']
+_BALG = '//@   assigns ghost(n_set_bal)'
+for f in ('phase0', 'altair', 'bellatrix', 'capella', 'deneb'):
+    for m in ('ProcessEpoch', 'ProcessBlock'):
+        EXTRA.setdefault('eth2/beacon/%s:BeaconStateView.%s' % (f, m), []).append(_BALG)
+for k in ('common:ProcessSlots', 'common:StateTransition', 'common:PostSlotTransition', 'altair:ProcessSyncAggregate', 'phase0:ProcessProposerSlashings', 'phase0:ProcessAttesterSlashings',
+          'phase0:ProcessAttestations', 'altair:ProcessAttestations', 'deneb:ProcessAttestations', 'phase0:ProcessDeposits', 'capella:ProcessWithdrawals'):
+    EXTRA.setdefault('eth2/beacon/' + k, []).append(_BALG)
 # end-of-epoch resets (C02): when they fire and with which epoch
 for n in ('ProcessEth1DataReset', 'ProcessSlashingsReset', 'ProcessRandaoMixesReset', 'ProcessHistoricalRootsUpdate'):
     PROPS['eth2/beacon/phase0:' + n] = ' C02'
